@@ -5,6 +5,8 @@ V = os.path.dirname(os.path.dirname(os.path.abspath(__file__)))
 sys.path.insert(0, os.path.join(V, 'lib'))
 import props
 meta = json.load(open(os.path.join(V, 'tools', 'manifest_meta.json')))
+import glob
+meta['props'] = {os.path.basename(f)[:-5]: json.load(open(f)) for f in glob.glob(os.path.join(V, 'tools', 'meta', '*.json'))}
 all_ids = [json.loads(l)['id'] for l in open(os.path.join(V, 'properties.jsonl'))]
 checks, na = [], []
 for pid in all_ids:
